@@ -11,7 +11,7 @@ from __future__ import annotations
 import ast
 
 from ..cfg import deref_at
-from ..astutil import body_always_raises, calls_in, dotted, enclosing_stmt, is_within, kwarg, src, walk_local
+from ..astutil import ancestors, body_always_raises, calls_in, dotted, enclosing_stmt, is_within, kwarg, src, walk_local
 from ..cfg import cfg_of
 from ..loader import AnalysisError
 from ..terms import Evaluator, alts, contains, find, show, strip_sites, walk
@@ -614,6 +614,123 @@ def r7_emitted_key_encrypted(ctx):
     ctx.floor('C17.R5', 'key emission sinks', n, 4)
 
 
+def r9_unlock_refuses_only_missing_inputs(ctx):
+    """unlock accepts every (password, key) pair that init / add-key can produce: its own refusals concern only a MISSING
+    password or key (None tests on the two parameters); whether the pair is right is decided by the authenticated
+    decryption inside _instantiate_key.  A refusal that looks at sizes / fields of the key locks out configurations
+    the writers accept (another KDF, another salt length)."""
+    corpus = ctx.corpus
+    un = corpus.func('repository', 'Repository.unlock')
+    ctx.analysed(un)
+    a = un.node.args
+    params = {x.arg for x in a.posonlyargs + a.args + a.kwonlyargs} - {'self'}
+    n = 0
+    for r in walk_local(un.node):
+        if not isinstance(r, ast.Raise):
+            continue
+        n += 1
+        guards = [g for g in ancestors(r) if isinstance(g, ast.If)]
+        ok = bool(guards)
+        why = 'unconditional raise'
+        for g in guards:
+            t = g.test
+            atoms = t.values if isinstance(t, ast.BoolOp) else [t]
+            for at in atoms:
+                while isinstance(at, ast.UnaryOp) and isinstance(at.op, ast.Not):
+                    at = at.operand
+                if isinstance(at, ast.Attribute) and at.attr == 'encrypted':
+                    continue
+                none_test = isinstance(at, ast.Compare) and len(at.ops) == 1 and isinstance(at.ops[0], (ast.Is, ast.IsNot)) and isinstance(at.comparators[0], ast.Constant) and at.comparators[0].value is None and isinstance(at.left, ast.Name) and at.left.id in params
+                if not none_test:
+                    ok = False
+                    why = f'`{src(g.test, 70)}`'
+        ctx.check(
+            ok,
+            'C17.R5',
+            f'{func_label(un)}|unlock-refuses-only-missing-inputs',
+            loc(un, r),
+            'unlock: refuses only when the password or the key is missing (None)',
+            f'unlock: refuses on {why}: a key that init / add-key wrote for an accepted configuration (another KDF, salt length, cipher) may never unlock again',
+        )
+    ctx.floor('C17.R5', 'refusals in unlock', n)
+
+
+def r11_kdf_lengths_follow_cipher(ctx):
+    """Keys derived for the cipher have the cipher's key size: every KDF that _make_key configures with a `length`
+    takes it from `<cipher>.key_bytes` (the adapter the config selected), not from a constant - otherwise every
+    configuration with another key size than the constant writes a key that cannot encrypt anything."""
+    corpus = ctx.corpus
+    mk = corpus.method(repo_cls(corpus), '_make_key')
+    if mk is None:
+        raise AnalysisError('C17.R10: Repository._make_key missing')
+    ctx.analysed(mk)
+    cipher_params = {x.arg for x in mk.node.args.kwonlyargs + mk.node.args.args if 'cipher' in x.arg}
+    n = 0
+    for c in calls_in(mk.node):
+        if not (dotted(c.func) or '').endswith('from_config'):
+            continue
+        ln = kwarg(c, 'length')
+        # KDF configurations are the ones that get a length; the MAC has its own fixed size
+        tgt = enclosing_stmt(c)
+        names = [t.id for t in tgt.targets[0].elts] if isinstance(tgt, ast.Assign) and isinstance(tgt.targets[0], ast.Tuple) and all(isinstance(t, ast.Name) for t in tgt.targets[0].elts) else []
+        is_kdf = any('kdf' in x.lower() for x in names) or any(isinstance(k.value, ast.Name) and 'kdf' in k.value.id.lower() for k in c.keywords if k.arg is None) or any(isinstance(k.value, ast.Attribute) and 'KDF' in k.value.attr for k in c.keywords)
+        if not is_kdf:
+            continue
+        n += 1
+        ok = isinstance(ln, ast.Attribute) and ln.attr == 'key_bytes' and isinstance(ln.value, ast.Name) and ln.value.id in cipher_params
+        ctx.check(
+            ok,
+            'C17.R10',
+            f'{func_label(mk)}|kdf-length-is-cipher-key-size',
+            loc(mk, c),
+            '_make_key: the KDF is configured with length=<cipher>.key_bytes',
+            f'_make_key: a KDF is configured with length `{src(ln, 30) if ln is not None else "<default>"}` instead of the key size of the configured cipher: with a cipher of another key size (AES-128/192) the derived keys do not fit - '
+            'init and unlock succeed, every snapshot fails',
+        )
+    ctx.floor('C17.R10', 'KDF configurations in _make_key', n, 2)
+
+
+def r10_adapter_prototypes_not_shared(ctx):
+    """An adapter object serves every call of a session (and concurrent streams): a mutable hashing context kept on it
+    is only ever used through a fresh `.copy()`.  Handing the kept context itself to a caller lets the first stream
+    change what every later digest is computed from."""
+    corpus = ctx.corpus
+    mod = corpus.module('adapters')
+    n = 0
+    for ci in mod.classes.values():
+        init = ci.methods.get('__init__')
+        if init is None:
+            continue
+        protos = set()
+        for st in walk_local(init.node):
+            if isinstance(st, ast.Assign) and isinstance(st.value, ast.Call):
+                v = st.value
+                is_ctx = isinstance(v.func, ast.Call) and (dotted(v.func.func) or '') == 'getattr' and v.func.args and (dotted(v.func.args[0]) or '') == 'hashlib'
+                is_ctx = is_ctx or (dotted(v.func) or '').startswith('hashlib.')
+                if is_ctx:
+                    protos |= {t.attr for t in st.targets if isinstance(t, ast.Attribute) and isinstance(t.value, ast.Name) and t.value.id == 'self'}
+        for attr in sorted(protos):
+            for m in ci.methods.values():
+                if m is init:
+                    continue
+                for u in ast.walk(m.node):
+                    if isinstance(u, ast.Attribute) and u.attr == attr and isinstance(u.value, ast.Name) and u.value.id == 'self':
+                        n += 1
+                        ctx.analysed(m)
+                        par = getattr(u, '_parent', None)
+                        ok = isinstance(par, ast.Attribute) and par.value is u and par.attr in ('copy', 'digest_size', 'block_size', 'name')
+                        ctx.check(
+                            ok,
+                            'C17.R9',
+                            f'{func_label(m)}|kept-context-used-through-copy:{attr}',
+                            loc(m, u),
+                            f'{ci.name}.{m.name}: the kept hashing context `self.{attr}` is used through .copy()',
+                            f'{ci.name}.{m.name}: the hashing context kept on the adapter (`self.{attr}`) is used / handed out itself, not a copy: the first stream fed through it changes every digest computed '
+                            'afterwards (snapshots written with this hasher are reported corrupted on restore)',
+                        )
+    ctx.count('kept_hash_contexts_uses', n)
+
+
 def run(ctx):
     r2b_chunker_lengths_positive(ctx)
     # a key that init / add-key accepted and wrote must unlock the repository again: unlock applies the same acceptance
@@ -623,6 +740,9 @@ def run(ctx):
     from .c06 import r1_unlock
 
     r1_unlock(_RL17(ctx, 'C17.R5'))
+    r9_unlock_refuses_only_missing_inputs(ctx)
+    r10_adapter_prototypes_not_shared(ctx)
+    r11_kdf_lengths_follow_cipher(ctx)
     # what was written under an accepted configuration is found again under it: the loader drops a listed snapshot only for
     # the user filter or a foreign tag - no condition that depends on digest / tag sizes, i.e. on the chosen hash or MAC
     from .c02 import r3_skip_whitelist
